@@ -54,7 +54,9 @@ def rules(model: Model, tier: str) -> List[RuleResult]:
     negative_count_slicing(model, Z)
     _leibniz(fc, L)
     _hy = ac.hygiene_rules(model, ac.get_fncls(model, '_Quadrature'), PROP, min_copies=0, min_opt=2, min_conv=1, min_idx=3)
-    return [R1, R2, R3, R4, R5, K, R6, I, Z, L, *_hy]
+    from ..rules import substitution as _subst
+    _sub = _subst.rules(model, PROP, tier)
+    return [R1, R2, R3, R4, R5, K, R6, I, Z, L, *_hy, *_sub]
 
 
 # -------------------------------------------------------------------------------------------------
